@@ -17,8 +17,8 @@ C-ECHO as liveness control) or until the association ends.  Offline checker over
 Mechanism keys:  C20|after-final|<DIMSE>|first=<category>|then=...
                  C20|no-final|<cause>|<DIMSE>|scp-raised|<Exc>@<function>      C20|no-final|<cause>|<DIMSE>|silent|<service family>
                      cause = documented-behaviour | undocumented-return-shape | undocumented-yield-shape |
-                             status-out-of-range | ambiguous-count   (class of the first handler result the documentation
-                             does not cover, from the reference walk of the case; never an input value)
+                             status-out-of-range   (semantic class of the handler result the SCP was processing last,
+                             from the handler log; never an input value)
                  C20|wrong-message-id|<differs|missing|copied-from-status-dataset>|<DIMSE>   C20|wrong-context|<DIMSE>
                  C20|wrong-message-type|<DIMSE>|<type>
 """
@@ -47,9 +47,11 @@ ASSUMPTIONS = [
     "C-STORE sub-operation requests of C-GET are requests of the acceptor, not responses; they are answered and ignored here",
 ]
 WORKERS = {"quick": 16, "thorough": 16}
-REQUIRE = {"requests": 400, "responses_checked": 500, "finals_seen": 300, "pending_seen": 150,
+REQUIRE = {"requests": 400, "responses_checked": 500, "finals_seen": 300, "pending_seen": 120,
            "handler_raised": 20, "msgid_0_or_65535": 30, "gen_requests": 150, "n_requests": 60,
-           "no_final_excused": 3, "multi_response_requests": 80}
+           "no_final_excused": 5, "multi_response_requests": 60, "rq_C-ECHO": 5, "rq_C-STORE": 5, "rq_C-FIND": 100,
+           "rq_C-GET": 40, "rq_C-MOVE": 40, "rq_N-GET": 8, "rq_N-SET": 8, "rq_N-ACTION": 8, "rq_N-CREATE": 8,
+           "rq_N-DELETE": 5, "rq_N-EVENT-REPORT": 8}
 MAX_INCONCLUSIVE_FRAC = 0.03
 
 
@@ -141,7 +143,10 @@ def check(case, obs):
         else:
             excs = obs.get("scp_excs") or []
             send_exc = [r for r in obs.get("sent_tap") or [] if r.get("exc") and r.get("acceptor")]
-            cause = H.model(case).get("note") or "documented-behaviour"
+            cause = H.last_result_class(case, obs)
+            if not excs and obs.get("end") == "timeout" and (obs.get("live") or {}).get("end") != "answered":
+                # nothing within the watchdog and the acceptor does not answer the control C-ECHO either: machine load
+                return viol, c, "no response within %.0f s and liveness C-ECHO unanswered (load?)" % H.WAIT
             if excs:
                 e = excs[0]
                 key = "C20|no-final|%s|%s|scp-raised|%s@%s" % (cause, dimse, e["type"], e["where"])
@@ -158,7 +163,7 @@ def check(case, obs):
         live = obs.get("live") or {}
         if live.get("end") == "answered":
             c["liveness_echo_answered"] = 1
-    return viol, c
+    return viol, c, None
 
 
 def _status_ds_sets_msgid(case):
@@ -193,12 +198,12 @@ def run_case(case):
     if obs.get("inconclusive"):
         return {"key": key, "nontrivial": False, "sample": {"case": case}, "violations": [], "counters": {},
                 "inconclusive": obs["inconclusive"]}
-    viol, counters = check(case, obs)
+    viol, counters, inconclusive = check(case, obs)
     sample = {"case": case, "end": obs["end"], "responses": [
         {k: m[k] for k in ("t", "ctx", "name", "status", "mid_rsp", "rem", "comp", "fail", "warn", "after_final")}
         for m in obs["msgs"]], "hlog": obs["hlog"], "live": obs["live"], "scp_excs": obs.get("scp_excs")}
     return {"key": key, "nontrivial": not trivial, "sample": sample, "violations": viol, "counters": counters,
-            "inconclusive": None}
+            "inconclusive": inconclusive}
 
 
 def extra_evidence(tier, results):
